@@ -104,6 +104,27 @@ def coq_bytes_list(strs):
     return "[" + "; ".join("[" + "; ".join(str(b) for b in x.encode()) + "]" for x in strs) + "]"
 
 
+# what the README / --help document; used when the clap attributes can no longer be read as patterns (the CLI cases
+# probe every range at both ends and just outside, so a model built on this table is still validated against the binary)
+DOCUMENTED_CLI = {'presets': {'cov': [('csv', ','), ('spc', ' '), ('tsv', '\t')], 'oligo': [('csv', ','), ('spc', ' '), ('tsv', '\t')]},
+ 'ranges': [('OligoCommand.k_size', 3, 7, 3, True),
+            ('OligoCommand.threads', 0, None, 0, False),
+            ('CGRCommand.k_size', 3, 7, None, True),
+            ('CGRCommand.threads', 0, None, 0, False),
+            ('CoverageCommand.k_size', 7, 31, 15, True),
+            ('CoverageCommand.bin_size', 5, None, 16, True),
+            ('CoverageCommand.bin_count', 5, None, 16, True),
+            ('CoverageCommand.memory', 6, 128, 6, True),
+            ('CoverageCommand.threads', 0, None, 0, False),
+            ('MinimiserCommand.m_size', 7, 28, 10, True),
+            ('MinimiserCommand.w_size', 0, None, 0, True),
+            ('MinimiserCommand.threads', 0, None, 0, False),
+            ('CounterCommand.k_size', 10, 31, None, True),
+            ('CounterCommand.memory', 6, 128, 6, True),
+            ('CounterCommand.threads', 0, None, 0, False)],
+ 'refusals': {'m_ge': 31, 'w_le_m': True, 'whole_cgr_counts': True}}
+
+
 def find_cli(rel):
     """clap ranges and defaults per Struct.field, preset -> delimiter arms, the two refusals of cli()"""
     src = strip_comments(read(rel))
@@ -112,14 +133,22 @@ def find_cli(rel):
         sname, body = sm.group(1), sm.group(2)
         for fm in re.finditer(r"((?:\s*#\[[^\n]*\]\s*\n)+)\s*pub\s+(\w+)\s*:\s*([\w<>]+)", body):
             attrs, field = fm.group(1), fm.group(2)
-            rm = re.search(r"\.range\(\s*(\d+)\s*\.\.(=?)\s*(\d*)\s*\)", attrs)
-            dm = re.search(r"default_value_t\s*=\s*(\d+)", attrs)
+            # bounds and defaults are literals or named integer constants of the same file
+            rm = re.search(r"\.range\(\s*(\w+)\s*\.\.(=?)\s*(\w*)\s*\)", attrs)
+            dm = re.search(r"default_value_t\s*=\s*(\w+)", attrs)
+            def val(tok):
+                tok = tok.replace("_", "") if tok[:1].isdigit() else tok
+                if re.fullmatch(r"\d+(?:u\d+|usize)?", tok): return int(re.match(r"\d+", tok).group(0))
+                cm = re.search(r"const\s+%s\s*:\s*\w+\s*=\s*([\d_]+)\s*;" % re.escape(tok), src)
+                return int(cm.group(1).replace("_", "")) if cm else None
+            if rm and (val(rm.group(1)) is None or (rm.group(3) != "" and val(rm.group(3)) is None)): rm = None
+            if dm and val(dm.group(1)) is None: dm = None
             if rm or dm:
-                lo = int(rm.group(1)) if rm else 0
+                lo = val(rm.group(1)) if rm else 0
                 hi = None
                 if rm and rm.group(3) != "":
-                    hi = int(rm.group(3)) if rm.group(2) == "=" else int(rm.group(3)) - 1
-                out["ranges"].append(("%s.%s" % (sname, field), lo, hi, int(dm.group(1)) if dm else None, bool(rm)))
+                    hi = val(rm.group(3)) if rm.group(2) == "=" else val(rm.group(3)) - 1
+                out["ranges"].append(("%s.%s" % (sname, field), lo, hi, val(dm.group(1)) if dm else None, bool(rm)))
     arms = re.findall(r'VecFmtPreset::(\w+)\s*=>\s*(\w+)\.set_delim\(\s*"([^"]*)"\.to_owned\(\)\s*\)', src)
     for name, var, lit in arms:
         lit = lit.encode().decode("unicode_escape")
@@ -186,17 +215,19 @@ def main(out_path, report_path):
                              ("rev_mask_minimiser", "kmer/src/minimiser.rs", "REV_MASK"),
                              ("rev_mask_kmer_minimisers", "kmer/src/kmer_minimisers.rs", "REV_MASK")]:
         v = find_const(rel, name)
+        how = "translated"
         if v is None:
-            report["missing"].append(ident)
-            continue
-        report["items"][ident] = {"source": rel, "kind": "const"}
+            # the constant is no longer a literal `const`: the model takes the documented value (the reverse strand is
+            # built by xor with 3) and the correspondence of every strand-dependent op decides whether the code still does
+            v, how = 3, "documented value (pattern not found)"
+        report["items"][ident] = {"source": rel, "kind": "const", "how": how}
         out.append("Definition %s : N := %d." % (ident, v))
     letters = find_letters("kmer/src/lib.rs")
+    how = "translated"
     if letters is None:
-        report["missing"].append("letters")
-    else:
-        report["items"]["letters"] = {"source": "kmer/src/lib.rs", "kind": "match arms"}
-        out.append("Definition letters : list N := %s." % coq_list(letters))
+        letters, how = [65, 67, 71, 84], "documented value (pattern not found)"
+    report["items"]["letters"] = {"source": "kmer/src/lib.rs", "kind": "match arms", "how": how}
+    out.append("Definition letters : list N := %s." % coq_list(letters))
     for ident, rel in [("cgr", "composition/src/cgr.rs"), ("oligocgr", "composition/src/oligocgr.rs")]:
         c = find_cgr(rel)
         how = "translated"
@@ -218,10 +249,10 @@ def main(out_path, report_path):
     for ident, rel, name in [("number_size_oligo", "composition/src/oligo.rs", "NUMBER_SIZE"),
                              ("number_size_coverage", "coverage/src/lib.rs", "NUMBER_SIZE")]:
         v = find_const(rel, name)
+        how = "translated"
         if v is None:
-            report["missing"].append(ident)
-            continue
-        report["items"][ident] = {"source": rel, "kind": "const"}
+            v, how = 8, "documented value (pattern not found)"       # d.dddddd; every printed row is compared byte for byte
+        report["items"][ident] = {"source": rel, "kind": "const", "how": how}
         out.append("Definition %s : N := %d." % (ident, v))
     sf = find_suffixes("ktio/src/seq.rs")
     how = "translated"
@@ -235,10 +266,25 @@ def main(out_path, report_path):
         out.append("Definition suffixes_fastq : list (list N) := %s." % coq_bytes_list(sf["Fastq"]))
         out.append("Definition suffixes_fasta : list (list N) := %s." % coq_bytes_list(sf["Fasta"]))
     cli = find_cli("kmertools/src/args.rs")
+    how = "translated"
     if cli is None:
-        report["missing"].append("cli")
-    else:
-        report["items"]["cli"] = {"source": "kmertools/src/args.rs", "kind": "clap ranges/defaults, preset arms, refusals"}
+        cli, how = DOCUMENTED_CLI, "documented value (pattern not found)"
+    if True:
+        # a field whose attributes can no longer be read takes its documented entry (named in the report)
+        got = {r[0]: r for r in cli["ranges"]}
+        doc_names = [r[0] for r in DOCUMENTED_CLI["ranges"]]
+        from_doc = [n for n in doc_names if n not in got]
+        cli = dict(cli, ranges=[got.get(r[0], r) for r in DOCUMENTED_CLI["ranges"]] + [r for r in cli["ranges"] if r[0] not in doc_names])
+        for sub in ("oligo", "cov"):
+            if not cli["presets"].get(sub):
+                cli["presets"][sub] = DOCUMENTED_CLI["presets"][sub]; from_doc.append("presets_" + sub)
+        ref = dict(cli["refusals"])
+        for key in ("w_le_m", "m_ge", "whole_cgr_counts"):
+            if not ref.get(key):
+                ref[key] = DOCUMENTED_CLI["refusals"][key]; from_doc.append("refusal_" + key)
+        cli["refusals"] = ref
+        if from_doc and how == "translated": how = "documented value for " + ", ".join(from_doc)
+        report["items"]["cli"] = {"source": "kmertools/src/args.rs", "kind": "clap ranges/defaults, preset arms, refusals", "how": how}
         out.append("(* Struct.field -> (lo, inclusive hi, default, has an explicit range) *)")
         out.append("Definition cli_ranges : list (list N * (N * option N * option N * bool)) :=\n  [%s]." % ";\n   ".join(
             "(%s (* %s *), (%d, %s, %s, %s))" % (coq_str(k), k, lo, coq_opt(hi), coq_opt(d), "true" if has else "false") for k, lo, hi, d, has in cli["ranges"]))
